@@ -18,8 +18,8 @@ ASSUMPTIONS = [
 
 
 def run(ctx, rep):
-    RG.rule_packrat(ctx, rep, "Z1")
+    rep.run(RG.rule_packrat, ctx, rep, "Z1")
     rep.require_min("Z1", 20)
-    RG.rule_recursion_evidence(ctx, rep, "Z2")
-    RG.rule_termination(ctx, rep, "Z3")
+    rep.run(RG.rule_recursion_evidence, ctx, rep, "Z2")
+    rep.run(RG.rule_termination, ctx, rep, "Z3")
     rep.require_min("Z3", 10)
